@@ -1,28 +1,29 @@
 import PPLV.Solver.PIPCoreProofsMain4
+import PPLV.Solver.PIPCoreSolveAsWritten
 /-!
-# C07 stage 2 — end-to-end, part 5: induction over the fuel of `solveGo`
+# C07 stage 2 — end-to-end, part 5: induction over the fuel of `solveGoAsWritten`
 
-`solveGo_sound`: whenever the modelled `PIP_Solution_Node::solve` returns (`.done r`, any fuel) and the result,
+`solveGoAsWritten_sound`: whenever the modelled `PIP_Solution_Node::solve` returns (`.done r`, any fuel) and the result,
 evaluated at a parameter vector the call is responsible for, is a point, that point is the lexicographic
 minimum of the node the call started from.
 -/
 namespace PPLV.PIPCore
 
-theorem solveGo_sound {cc : Mat → Option Bool} (hcc : CCContract cc) (ctl : Ctl) (F : StepFacts)
+theorem solveGoAsWritten_sound {cc : Mat → Option Bool} (hcc : CCContract cc) (ctl : Ctl) (F : StepFacts)
     (cfc : Bool) :
     ∀ (fuel : Nat) (entry : Bool) (nd : SolNode) (ctx : Mat) (r : Option CTree) (S : List Int → Prop) (n0 : Nat),
-      solveGo cc ctl cfc fuel entry nd ctx = .done r → ((∃ qpre, S qpre) → Inv' S n0 nd ctx) →
+      solveGoAsWritten cc ctl cfc fuel entry nd ctx = .done r → ((∃ qpre, S qpre) → Inv' S n0 nd ctx) →
       ∀ qpre, S qpre → ∀ x, evalRes r qpre = some x → IsLexMin nd (extendArts nd.arts qpre) x := by
   intro fuel
   induction fuel with
   | zero =>
     intro entry nd ctx r S n0 h
-    simp only [solveGo] at h
+    simp only [solveGoAsWritten] at h
     exact absurd h (by simp)
   | succ fuel ih =>
     intro entry nd ctx r S n0 h hinv' qpre hq x hx
     have hinv := hinv' ⟨qpre, hq⟩
-    rw [solveGo] at h
+    rw [solveGoAsWritten] at h
     by_cases hent : (entry && cfc) = true
     · -- the feasibility check of the context at entry
       rw [if_pos hent] at h
@@ -105,13 +106,13 @@ theorem solveGo_sound {cc : Mat → Option Bool} (hcc : CCContract cc) (ctl : Ct
                   exact this
                 -- the two recursive calls
                 generalize htT : integralSimplification (mrow nd.tab.t bestI) = tTest at h
-                cases hst : solveGo cc ctl cfc fuel true
+                cases hst : solveGoAsWritten cc ctl cfc fuel true
                     { nd with sign := sg, arts := [], cons := [] } (ctx ++ [tTest]) with
                 | fuel => rw [hst] at h; simp only at h; exact absurd h (by simp)
                 | done tNode =>
                   rw [hst] at h
                   simp only at h
-                  cases hsf : solveGo cc ctl cfc fuel true
+                  cases hsf : solveGoAsWritten cc ctl cfc fuel true
                       { nd with sign := sg, arts := [], cons := [] } (ctx ++ [complementAssign tTest 1]) with
                   | fuel => rw [hsf] at h; simp only at h; exact absurd h (by simp)
                   | done fNode =>
